@@ -575,18 +575,34 @@ func ruleHeadingOnlyIdentifiers(p *Program, r *Report) {
 		r.Undecided("ident", "TupleNameRepr does not test a regexp global", tnr.Pos())
 		return
 	}
-	isIdentTest := func(x ssa.Value) bool {
+	var isIdentTestD func(x ssa.Value, depth int) bool
+	isIdentTestD = func(x ssa.Value, depth int) bool {
 		c, ok := x.(*ssa.Call)
 		if !ok {
 			return false
 		}
-		if g := c.Call.StaticCallee(); g != nil && strings.Contains(g.String(), "regexp.Regexp).Match") && len(c.Call.Args) > 0 {
+		g := c.Call.StaticCallee()
+		if g == nil {
+			return false
+		}
+		if strings.Contains(g.String(), "regexp.Regexp).Match") && len(c.Call.Args) > 0 {
 			if ld, ok := c.Call.Args[0].(*ssa.UnOp); ok && ld.X == ssa.Value(identG) {
 				return true
 			}
 		}
+		// a package-local predicate that applies the test (allIdentifiers(names))
+		if depth < 2 && g.Pkg == fm.Pkg && g.Blocks != nil && g != tnr {
+			found := false
+			ForEachInstr(g, func(i2 ssa.Instruction) {
+				if v, ok := i2.(ssa.Value); ok && isIdentTestD(v, depth+1) {
+					found = true
+				}
+			})
+			return found
+		}
 		return false
 	}
+	isIdentTest := func(x ssa.Value) bool { return isIdentTestD(x, 0) }
 	var funcs []*ssa.Function
 	allFuncs(fm, &funcs)
 	// package-local helpers of the printer
